@@ -17,10 +17,23 @@ CHECKS = {
         design_ref="5/C19", engine="PathStore"),
 }
 
+CHECKS["C16"] = dict(
+    category="model_checking",
+    technique="TLA+ contract (DataModel: queries defined as scans) + cache model (DataModelImpl) checked in TLC; trace validation of exhaustive history trees on the real DataModel",
+    text="TLC proves that the cache model answers every query from the current rows for all histories at small constants (and exhibits "
+         "the two pinned-code deviations as negative controls); every call of exhaustively enumerated history trees on the real "
+         "DataModel (query -> mutation -> query is inside every depth>=3 tree) is judged by the contract in DataModelTrace: the pandas "
+         "frame after each mutation must be the contract's table and each query result must be the scan of it.",
+    note="Trusts pandas as ground truth for the frame, TLC/Json; tables of <=4 rows, 2 columns (float + string), values {missing,1,2}; "
+         "exhaustive to depth 3 (quick) / 4 (thorough) plus seeded chains to length 14.",
+    design_ref="5/C16", engine="DataModel")
+
 NOT_YET = {
 }
 
 ENGINES = [
+    dict(name="DataModel", path="specs/DataModel.tla specs/DataModelImpl.tla specs/DataModelTrace.tla harness/c16.py harness/drive_c16.py",
+         serves_properties=["C16"], kind_free_text="TLA+ contract + cache model + trace spec, TLC"),
     dict(name="PathStore", path="specs/PathStore.tla specs/PathTrieImpl.tla specs/PathStoreTrace.tla harness/c19.py harness/drive_c19.py",
          serves_properties=["C19"], kind_free_text="TLA+ contract + implementation model + trace spec, TLC"),
 ]
